@@ -94,13 +94,29 @@ const ARRANGEMENTS: &[&str] = &["alone", "trailing-comma", "inert-before", "iner
 
 pub fn run(req: &Value) -> Value {
     let only = req["only"].as_str().map(|s| s.to_string());
+    // The comparison below needs the expansion to be a function of the item. Each position's plain item is expanded eight times
+    // first: if two runs on the same text differ (a hash-ordered repetition, ..) nothing can be compared -- that is C13's business
+    // (registered stand-in fresh:expansion_text) -- and the grid says so instead of reporting differences that are not about C10.
+    for pos in POSITIONS {
+        let item = pos.item.replace("{A}", "");
+        let first = expand(&item);
+        for _ in 0..7 {
+            if expand(&item) != first {
+                return json!({"undetermined": format!("the expansion of `{item}` is not deterministic (two runs on the same text differ): the spellings cannot be compared")});
+            }
+        }
+    }
     let mut cases = vec![];
     let mut n = 0usize;
     let mut bad = 0usize;
+    let mut undetermined = 0usize;
     let mut check = |cell: String, serde_item: String, ts_item: String, cases: &mut Vec<Value>| {
         if let Some(o) = &only { if !cell.starts_with(o.as_str()) { return; } }
         n += 1;
         let (a, b) = (expand(&serde_item), expand(&ts_item));
+        // an expansion that is not a function of the item (two runs on the same text differ, e.g. a hash-ordered repetition) cannot
+        // be compared: that is C13's business (registered stand-in fresh:expansion_text), the cell is left undecided here
+        if let (Ok(x), Ok(y)) = (&b, &expand(&ts_item)) { if x != y { undetermined += 1; return; } }
         let agree = match (&a, &b) { (Ok(x), Ok(y)) => x == y, _ => false };
         if !agree {
             bad += 1;
@@ -148,5 +164,5 @@ pub fn run(req: &Value) -> Value {
             check(format!("{}/-/inert-alone/{}", pos.name, a), pos.item.replace("{A}", &format!("#[serde({a})]")), plain.clone(), &mut cases);
         }
     }
-    json!({"cells": n, "disagreements": bad, "cases": cases, "agree": bad == 0})
+    json!({"cells": n, "disagreements": bad, "cells_with_nondeterministic_expansion": undetermined, "cases": cases, "agree": bad == 0})
 }
